@@ -112,6 +112,10 @@ def gen_cases(tier, seed):
                 add(pattern, 4, 0.0, wa, step, s)
             for s in schedx.cluster_family(4, sizes=(3,)):
                 add(pattern, 4, 0.0, wa, step, s)
+            # longer tables (N = 6): all singles and all same-sensor pairs
+            for s in schedx.subsets_upto(6, 2):
+                if len(s) < 2 or s[0][1] == s[1][1]:
+                    add(pattern, 6, 0.0, wa, step, s)
     return cases
 
 
@@ -266,7 +270,7 @@ def finalize(cases, results, tier):
     return dict(states=len(nodes), transitions=len(edges),
                 traces_validated_against_impl=len(results),
                 distinct_cursor_sequences=len(seqs),
-                bound='thorough: M<=3 samples (N=3), M<=2 (N=4), cluster family 3-4; '
+                bound='thorough: M<=3 samples (N=3), M<=2 (N=4), singles and same-sensor pairs (N=6), cluster family 3-4; '
                       'quick: M<=2 (N=3; in 2D mode same-sensor pairs only), cluster family on 6 configurations'
                 if tier == 'thorough' else 'M<=2 samples (N=3; 2D mode: singles and same-sensor pairs) + cluster family (3-4 in one '
                 'interval) + defaults/model variants + decimal regime',
